@@ -33,7 +33,7 @@ func isParserType(t types.Type, depth int) bool {
 	case *types.Array:
 		return isParserType(x.Elem(), depth+1)
 	case *types.Map:
-		return isParserType(x.Elem(), depth+1) || isParserType(x.Key(), depth+1)
+		return isParserType(x.Elem(), depth+1) // a map keyed by syntax nodes is a cache about them, not part of a tree
 	}
 	return false
 }
@@ -230,6 +230,35 @@ func genAstWriteFacts() {
 					}
 				case *ast.IncDecStmt:
 					check(x.X)
+				case *ast.CallExpr:
+					// in-place bulk writes: copy(dst, …) and sort.*(x) on a slice of syntax nodes
+					argIsTree := func(e ast.Expr) bool {
+						tv, ok := p.Info.Types[e]
+						if !ok || !isParserType(tv.Type, 0) {
+							return false
+						}
+						if id, ok := e.(*ast.Ident); ok {
+							o := p.Info.Uses[id]
+							return !freshLocal(o)
+						}
+						return true
+					}
+					if id, ok := x.Fun.(*ast.Ident); ok {
+						if b, ok := p.Info.Uses[id].(*types.Builtin); ok && b.Name() == "copy" && len(x.Args) == 2 && argIsTree(x.Args[0]) {
+							shared = append(shared, awfact{file: p.base(x.Pos()), fn: funcLabel(fd), lhs: exprText(x), line: p.line(x.Pos()), how: "copy into a slice of syntax nodes"})
+						}
+					}
+					if sel, ok := x.Fun.(*ast.SelectorExpr); ok {
+						if pid, ok := sel.X.(*ast.Ident); ok {
+							if pn, ok := p.Info.Uses[pid].(*types.PkgName); ok && (pn.Imported().Path() == "sort" || pn.Imported().Path() == "slices") {
+								for _, a := range x.Args {
+									if argIsTree(a) {
+										shared = append(shared, awfact{file: p.base(x.Pos()), fn: funcLabel(fd), lhs: exprText(x), line: p.line(x.Pos()), how: "in-place " + pn.Imported().Path() + " of a slice of syntax nodes"})
+									}
+								}
+							}
+						}
+					}
 				case *ast.RangeStmt:
 					if x.Tok == token.ASSIGN {
 						if x.Key != nil {
